@@ -85,9 +85,9 @@ theorem ended_stays_ended (sched : List Nat) : ∀ s, Recoverable.Inv s → s.st
       | ignored => exact h0
       | leaveLast t' hp h1 => omega
       | leaveMore t' hp h1 => omega
-      | unwrap hp hh h1 => omega
-      | hdropLast hp hh h1 => omega
-      | hdropMore hp hh h1 => rw [hh] at hse; simp at hse; omega
+      | unwrap t' hp hh h1 => omega
+      | hdropLast t' hp hh h1 => omega
+      | hdropMore t' hp hh h1 => rw [hh] at hse; simp at hse; omega
       | hdropGone => exact h0
 
 /-- **inert after the end**: once the recorder was recovered, or dropped (count zero), every later
@@ -353,6 +353,10 @@ theorem kept_grows_truthfully (s : Sys) (t : Thread) (b : Bool)
     | (unfold upgradeStep; split <;> intro h <;> exact absurd h (key _ _))
     | (unfold leaveStep; intro h; exact absurd h (key _ _))
     | (split <;> intro h <;> exact absurd h (key _ _))
+    | (unfold deepUpStep; split <;> (try split) <;> intro h <;> exact absurd h (key _ _))
+    | (unfold deepLeaveStep; split <;> intro h <;> exact absurd h (key _ _))
+    | (unfold dropInsideStep; simp only; split <;> intro h <;> exact absurd h (key _ _))
+    | (unfold intoInsideStep; split <;> intro h <;> exact absurd h (key _ _))
     | skip
   · rename_i rest hp hc
     unfold keepUpgradeStep
@@ -375,6 +379,311 @@ theorem kept_grows_truthfully (s : Sys) (t : Thread) (b : Bool)
     intro h
     have := congrArg List.length h
     simp at this
+
+/-! ### what every complete schedule ends with (round 6)
+
+A free-running round of the harness has no schedule to replay; the driver's `recover free` answers with what the
+round-robin schedule gives.  That is sound because of the theorems below: once every thread has run its program to
+the end, (finalised, recovered) is a function of the PROGRAMS alone (`completeOutcome`), whatever the interleaving
+was; `late` / `busy` are false in every state anyway.  The invariant behind it: the handle is gone exactly when an
+end call was executed (some thread got the answer `recovered` or `dropped`), and answers + calls still to make stay
+in balance with what the programs contain (`Proofs/Recoverable.lean: EndInv`). -/
+
+theorem reachable_endInv (progs : List (List Call)) (sched : List Nat) : EndInv progs (run (init progs) sched) :=
+  run_endInv progs sched _ (init_endInv progs)
+
+/-- every thread has run its program to the end -/
+def complete (s : Sys) : Prop := ∀ t ∈ s.threads, t.pc = .done
+
+theorem sumT_congr (f g : Thread → Nat) (s : Sys) (h : ∀ t ∈ s.threads, f t = g t) : sumT f s = sumT g s := by
+  unfold sumT
+  generalize s.threads = l at h
+  induction l with
+  | nil => rfl
+  | cons x xs ih =>
+    simp only [List.map_cons, List.sum_cons]
+    rw [h x (by simp), ih (fun t ht => h t (by simp [ht]))]
+
+theorem sumT_add (f g : Thread → Nat) (s : Sys) : sumT (fun t => f t + g t) s = sumT f s + sumT g s := by
+  unfold sumT
+  generalize s.threads = l
+  induction l with
+  | nil => rfl
+  | cons x xs ih => simp only [List.map_cons, List.sum_cons, ih]; omega
+
+/-- **the handle is gone exactly when an end call was executed**: in every reachable state, `handle = false` iff
+    the threads together have received at least one `recovered` / `dropped` answer; and the recorder counts as
+    recovered iff exactly one `recovered` answer was handed out -/
+theorem handle_gone_iff_end_executed (progs : List (List Call)) (sched : List Nat) :
+    ((run (init progs) sched).handle = false
+        ↔ sumT recN (run (init progs) sched) + sumT drpN (run (init progs) sched) > 0)
+    ∧ sumT recN (run (init progs) sched) = (if (run (init progs) sched).recovered then 1 else 0) := by
+  have h := reachable_endInv progs sched
+  refine ⟨?_, h.rec_flag⟩
+  rw [← sumT_add]; exact h.handle_iff
+
+/-- **all complete schedules end alike**: if every thread has run its program to the end, then (finalised, recovered)
+    is `completeOutcome progs` — (0, recovered) if the programs contain an `into_inner`, else (1, not recovered) if
+    they contain a handle drop (plain or from inside a forwarded call), else (0, not recovered): the handle is
+    still alive — and no call entered late, no unwrap was busy.  Unbounded: any programs, any schedule. -/
+theorem complete_outcome (progs : List (List Call)) (sched : List Nat)
+    (hc : complete (run (init progs) sched)) :
+    ((run (init progs) sched).finalised, (run (init progs) sched).recovered) = completeOutcome progs
+    ∧ (run (init progs) sched).enteredAfterEnd = false ∧ (run (init progs) sched).unwrapBusy = false := by
+  have h := reachable_endInv progs sched
+  refine ⟨?_, h.inv.no_late_entry, h.inv.no_busy_unwrap⟩
+  generalize run (init progs) sched = s at h hc
+  have hcalls : ∀ t ∈ s.threads, t.calls = [] := fun t ht => h.done_ok t ht (hc t ht)
+  have hq : ∀ u ∈ s.threads, insN u = 0 := fun u hu => by simp [insN, hc u hu, pcIns]
+  have hi : s.inside = 0 := by rw [h.inv.inside_eq]; exact insCount_zero_of_quiet s hq
+  have e1 : sumT recN s = iiTotal progs := by
+    rw [← h.ii_bal]; exact sumT_congr _ _ s (fun t ht => by simp [iiLeft, hcalls t ht])
+  have e0 : sumT (fun t => drpN t + dhLeft t) s = sumT drpN s :=
+    sumT_congr _ _ s (fun t ht => by simp [dhLeft, hcalls t ht])
+  have e2 := h.dh_le
+  have e3 := h.dh_eq
+  rw [e0] at e2 e3
+  have e4 := h.handle_iff
+  rw [sumT_add] at e4
+  have hrf := h.rec_flag
+  have hse := h.inv.strong_eq
+  have honce := h.inv.once
+  unfold completeOutcome
+  by_cases c1 : iiTotal progs > 0
+  · have hr : s.recovered = true := by
+      cases hr : s.recovered with
+      | true => rfl
+      | false => rw [hr] at hrf; simp at hrf; omega
+    rw [hr] at honce
+    simp only [if_true] at honce
+    have hf : s.finalised = 0 := by omega
+    simp [c1, hr, hf]
+  · have hr : s.recovered = false := by
+      cases hr : s.recovered with
+      | false => rfl
+      | true => rw [hr] at hrf; simp at hrf; omega
+    by_cases c2 : dhTotal progs > 0
+    · have hh : s.handle = false := by
+        rcases e3 with x | x
+        · exact e4.2 (by omega)
+        · exact x
+      have h0 : s.strong = 0 := by rw [hse, hh, hi]; simp
+      have hf : s.finalised = 1 := by
+        rcases h.inv.gone h0 hh with x | x
+        · rw [hr] at honce; simp at honce; omega
+        · rw [hr] at x; cases x
+      simp [c1, c2, hr, hf]
+    · have hh : s.handle = true := by
+        cases hh : s.handle with
+        | true => rfl
+        | false => have := e4.1 hh; omega
+      have hl := h.inv.handle_live hh
+      simp [c1, c2, hr, hl.1]
+
+/-- … so any two complete schedules of the same programs agree on everything a free-running round reports -/
+theorem complete_schedules_agree (progs : List (List Call)) (s1 s2 : List Nat)
+    (h1 : complete (run (init progs) s1)) (h2 : complete (run (init progs) s2)) :
+    (run (init progs) s1).finalised = (run (init progs) s2).finalised
+    ∧ (run (init progs) s1).recovered = (run (init progs) s2).recovered
+    ∧ (run (init progs) s1).enteredAfterEnd = (run (init progs) s2).enteredAfterEnd
+    ∧ (run (init progs) s1).unwrapBusy = (run (init progs) s2).unwrapBusy := by
+  have a := complete_outcome progs s1 h1
+  have b := complete_outcome progs s2 h2
+  have e := a.1.trans b.1.symm
+  simp only [Prod.mk.injEq] at e
+  exact ⟨e.1, e.2, by rw [a.2.1, b.2.1], by rw [a.2.2, b.2.2]⟩
+
+/-- a schedule can only be complete if the programs ask for `into_inner` at most once (a second one spins for ever) -/
+theorem complete_needs_single_into_inner (progs : List (List Call)) (sched : List Nat)
+    (hc : complete (run (init progs) sched)) : iiTotal progs ≤ 1 := by
+  have h := reachable_endInv progs sched
+  generalize run (init progs) sched = s at h hc
+  have hcalls : ∀ t ∈ s.threads, t.calls = [] := fun t ht => h.done_ok t ht (hc t ht)
+  have e1 : sumT recN s = iiTotal progs := by
+    rw [← h.ii_bal]; exact sumT_congr _ _ s (fun t ht => by simp [iiLeft, hcalls t ht])
+  have hrf := h.rec_flag
+  cases hr : s.recovered <;> rw [hr] at hrf <;> simp at hrf <;> omega
+
+/-! ### re-entrancy deeper than one level; ending the handle's life from INSIDE a forwarded call (round 6)
+
+`emitDeep d`: the recorder's own emission re-enters the recorder, which emits again, … `d` levels (the thread holds
+up to `d + 1` references).  `emitDropInside`: the recorder drops the RecoveryHandle from inside a forwarded call.
+`emitIntoInside`: the recorder calls `into_inner` from inside a forwarded call.  The invariant `Inv` (count = handle
++ calls inside, per-thread share `pcIns`) was re-proved over the larger machine; the statements: -/
+
+/-- the three new kinds of emission -/
+def isReentrant (c : Call) : Prop := (∃ d, c = .emitDeep d) ∨ c = .emitDropInside ∨ c = .emitIntoInside
+
+/-- **live while the handle is alive**, for the new kinds too: the upgrade succeeds, the system takes the `enter`
+    step, the thread is inside once -/
+theorem live_while_handle_reentrant (progs : List (List Call)) (sched : List Nat) (t : Thread) (c : Call) (rest : List Call)
+    (hh : (run (init progs) sched).handle = true) (hpc : t.pc = .upgrade) (hc : t.calls = c :: rest)
+    (he : isReentrant c) :
+    (stepThread (run (init progs) sched) t).1 = enter (run (init progs) sched)
+    ∧ (stepThread (run (init progs) sched) t).2.results = t.results
+    ∧ insN (stepThread (run (init progs) sched) t).2 = 1 := by
+  have h := reachable_inv progs sched
+  have : (run (init progs) sched).strong > 0 := by rw [h.strong_eq, hh]; simp; omega
+  rcases he with ⟨d, he⟩ | he | he <;> subst he <;> unfold stepThread <;> rw [hpc, hc]
+  · by_cases h0 : d = 0 <;> simp [upgradeStep, this, insN, pcIns, h0]
+  · simp [upgradeStep, this, insN, pcIns]
+  · simp [upgradeStep, this, insN, pcIns]
+
+/-- **a re-entrant emission reaches the recorder at every depth**: a thread that is inside the recorder `k ≥ 1` times
+    and emits once more through the wrapper finds the count > 0 in every interleaving — whatever happened to the
+    handle meanwhile — and enters a `k + 1`-th time -/
+theorem deep_nested_always_delivered (progs : List (List Call)) (sched : List Nat) (tid : Nat) (t : Thread)
+    (k d : Nat) (rest : List Call)
+    (hg : (run (init progs) sched).threads[tid]? = some t)
+    (hpc : t.pc = .dUp k) (hk : k ≥ 1) (hc : t.calls = .emitDeep d :: rest) :
+    (stepThread (run (init progs) sched) t).1 = enter (run (init progs) sched)
+    ∧ insN (stepThread (run (init progs) sched) t).2 = k + 1
+    ∧ (stepThread (run (init progs) sched) t).2.results = t.results := by
+  have h := reachable_inv progs sched
+  have hle := insN_le_insCount _ tid t hg
+  have h1 : insN t = k := by simp [insN, pcIns, hpc]
+  have : (run (init progs) sched).strong > 0 := by rw [h.strong_eq, h.inside_eq]; omega
+  have hk0 : k ≠ 0 := by omega
+  unfold stepThread; rw [hpc, hc]
+  by_cases h0 : k + 1 > d <;> simp [deepUpStep, this, hk0, insN, pcIns, h0]
+
+/-- the innermost of `k ≥ 2` calls returns to the one around it (`nestedDelivered`), never finalising the recorder:
+    the calls around it still hold references -/
+theorem deep_leave_keeps_recorder (progs : List (List Call)) (sched : List Nat) (tid : Nat) (t : Thread)
+    (k d : Nat) (rest : List Call)
+    (hg : (run (init progs) sched).threads[tid]? = some t)
+    (hpc : t.pc = .dIn k) (hk : k ≥ 2) (hc : t.calls = .emitDeep d :: rest) :
+    (stepThread (run (init progs) sched) t).2.results = t.results ++ [Res.nestedDelivered]
+    ∧ insN (stepThread (run (init progs) sched) t).2 = k - 1
+    ∧ (stepThread (run (init progs) sched) t).1.finalised = (run (init progs) sched).finalised
+    ∧ (stepThread (run (init progs) sched) t).1.strong > 0 := by
+  have h := reachable_inv progs sched
+  have hle := insN_le_insCount _ tid t hg
+  have h2 : insN t = k := by simp [insN, pcIns, hpc]
+  have hs : (run (init progs) sched).strong ≥ 2 := by rw [h.strong_eq, h.inside_eq]; omega
+  have hne : (run (init progs) sched).strong ≠ 1 := by omega
+  have hk2 : ¬ k < 2 := by omega
+  unfold stepThread; rw [hpc, hc]
+  by_cases h0 : k = 2
+  · simp [deepLeaveStep, release, hne, hk2, insN, pcIns, h0]; omega
+  · simp [deepLeaveStep, release, hne, hk2, insN, pcIns, h0]; omega
+
+/-- **`drop(handle)` from inside a forwarded call defers the finalisation to the return of that call**: the handle
+    is gone, the recorder is NOT finalised by that step (the call itself holds a reference: count > 0 afterwards),
+    nobody left the recorder; what is left of the call is the return of a plain emission, which finalises the
+    recorder iff it is the last one out (`keep_releases_like_emit` / `inert_after_handle_drop_partial`) -/
+theorem drop_inside_defers_finalisation (progs : List (List Call)) (sched : List Nat) (tid : Nat) (t : Thread)
+    (rest : List Call)
+    (hg : (run (init progs) sched).threads[tid]? = some t)
+    (hpc : t.pc = .iHdrop) (hc : t.calls = .emitDropInside :: rest) :
+    (stepThread (run (init progs) sched) t).1.handle = false
+    ∧ (stepThread (run (init progs) sched) t).1.finalised = (run (init progs) sched).finalised
+    ∧ (stepThread (run (init progs) sched) t).1.strong > 0
+    ∧ (stepThread (run (init progs) sched) t).1.inside = (run (init progs) sched).inside
+    ∧ (stepThread (run (init progs) sched) t).2.results = t.results ++ [Res.dropped]
+    ∧ (stepThread (run (init progs) sched) t).2.pc = .inside
+    ∧ (stepThread (run (init progs) sched) t).2.calls = .emit :: rest := by
+  have h := reachable_inv progs sched
+  have hle := insN_le_insCount _ tid t hg
+  have h1 : insN t = 1 := by simp [insN, pcIns, hpc]
+  have hse := h.strong_eq
+  have hie := h.inside_eq
+  unfold stepThread; rw [hpc, hc]
+  simp only [dropInsideStep]
+  cases hh : (run (init progs) sched).handle with
+  | true =>
+    rw [hh] at hse; simp only [if_true] at hse
+    have hne : (run (init progs) sched).strong ≠ 1 := by omega
+    simp [release, hne]; omega
+  | false =>
+    rw [hh] at hse
+    simp [hh]; simp at hse; omega
+
+/-- one attempt of an `into_inner` called from inside a forwarded call fails, in every state satisfying the invariant:
+    the calling thread holds a reference itself, so the count is not 1 while the handle exists -/
+theorem iTry_retries (s : Sys) (hinv : Recoverable.Inv s) (tid : Nat) (t : Thread) (rest : List Call)
+    (hg : s.threads[tid]? = some t) (hpc : t.pc = .iTry) (hc : t.calls = .emitIntoInside :: rest) :
+    stepThread s t = (s, t) ∧ s.recovered = false ∧ s.finalised = 0 := by
+  have hle := insN_le_insCount s tid t hg
+  have h1 : insN t = 1 := by simp [insN, pcIns, hpc]
+  have hse := hinv.strong_eq
+  have hie := hinv.inside_eq
+  have hpos : s.strong > 0 := by omega
+  have hnotended : ¬ (s.finalised > 0 ∨ s.recovered = true) := fun x => by have := hinv.ended x; omega
+  refine ⟨?_, ?_, by omega⟩
+  · unfold stepThread; rw [hpc, hc]
+    simp only [intoInsideStep]
+    cases hh : s.handle with
+    | false => simp
+    | true =>
+      rw [hh] at hse; simp only [if_true] at hse
+      have hne : s.strong ≠ 1 := by omega
+      simp [hne]
+  · cases hr : s.recovered with
+    | false => rfl
+    | true => exact absurd (Or.inr hr) hnotended
+
+/-- **`into_inner` called from inside a forwarded call never returns**: in every interleaving every one of its
+    attempts fails (nothing changes), and while it tries the recorder is neither recovered nor finalised -/
+theorem into_inner_from_inside_never_returns (progs : List (List Call)) (sched : List Nat) (tid : Nat) (t : Thread)
+    (rest : List Call)
+    (hg : (run (init progs) sched).threads[tid]? = some t)
+    (hpc : t.pc = .iTry) (hc : t.calls = .emitIntoInside :: rest) :
+    stepThread (run (init progs) sched) t = (run (init progs) sched, t)
+    ∧ (run (init progs) sched).recovered = false ∧ (run (init progs) sched).finalised = 0 :=
+  iTry_retries _ (reachable_inv progs sched) tid t rest hg hpc hc
+
+/-- … for ever: whatever the other threads do afterwards (any continuation `more`), the thread is still at the head
+    of the retry loop, the recorder is never recovered and never finalised — the pair is blocked for good
+    (consistent with "into_inner returns only when no emission is executing": its own call is) -/
+theorem into_inner_from_inside_blocks_forever (progs : List (List Call)) (sched more : List Nat) (tid : Nat)
+    (t : Thread) (rest : List Call)
+    (hg : (run (init progs) sched).threads[tid]? = some t)
+    (hpc : t.pc = .iTry) (hc : t.calls = .emitIntoInside :: rest) :
+    (run (run (init progs) sched) more).threads[tid]? = some t
+    ∧ (run (run (init progs) sched) more).recovered = false
+    ∧ (run (run (init progs) sched) more).finalised = 0 := by
+  have key : ∀ (more : List Nat) (s : Sys), Recoverable.Inv s → s.threads[tid]? = some t →
+      Recoverable.Inv (run s more) ∧ (run s more).threads[tid]? = some t := by
+    intro more
+    induction more with
+    | nil => intro s hi hg; exact ⟨hi, hg⟩
+    | cons u us ih =>
+      intro s hi hg
+      refine ih (step s u) (step_inv s u hi) ?_
+      cases hu : s.threads[u]? with
+      | none => have : step s u = s := by unfold step; rw [hu]
+                rw [this]; exact hg
+      | some tu =>
+        rw [step_some s u tu hu]
+        simp only [stepThread_threads]
+        rw [getElem?_setAt]
+        by_cases huv : u = tid
+        · subst huv
+          rw [hg] at hu
+          have htu : tu = t := (Option.some.inj hu).symm
+          subst htu
+          rw [(iTry_retries s hi u tu rest hg hpc hc).1]
+          split <;> simp [hg]
+        · have : ¬ (u = tid ∧ tid < s.threads.length) := fun x => huv x.1
+          rw [if_neg this]; exact hg
+  have ⟨hi, hg'⟩ := key more _ (reachable_inv progs sched) hg
+  have r := iTry_retries _ hi tid t rest hg' hpc hc
+  exact ⟨hg', r.2.1, r.2.2⟩
+
+/-- **nothing enters once the end began — the finalising thread's own emissions included**: in every reachable state in
+    which the recorder is being / has been finalised or was recovered, an emission of ANY kind that starts (a thread
+    at `weak.upgrade` — e.g. the thread running the recorder's destructor, emitting through the wrapper from
+    there) is answered with an inert handle and changes nothing -/
+theorem emission_after_end_ignored (progs : List (List Call)) (sched : List Nat) (t : Thread) (c : Call) (rest : List Call)
+    (he : (run (init progs) sched).finalised > 0 ∨ (run (init progs) sched).recovered = true)
+    (hpc : t.pc = .upgrade) (hc : t.calls = c :: rest)
+    (hk : c = .emit ∨ c = .emitPanic ∨ c = .emitNested ∨ isReentrant c) :
+    (stepThread (run (init progs) sched) t).1 = run (init progs) sched
+    ∧ (stepThread (run (init progs) sched) t).2.results = t.results ++ [Res.ignored] := by
+  have h0 := (reachable_inv progs sched).ended he
+  rcases hk with hk | hk | hk | ⟨d, hk⟩ | hk | hk <;> subst hk <;> unfold stepThread <;> rw [hpc, hc] <;>
+    simp [upgradeStep, h0, Thread.advance]
 
 /-! ### the full statement "after the handle is dropped … ignored" is FALSE of the code (known finding)
 
@@ -426,6 +735,24 @@ example :   -- handles kept across a handle drop: finalised at the drop (nobody 
     s.threads.map (·.results) = [[.delivered], [.dropped], [.ignored]]
     ∧ s.threads.map (·.kept) = [[true], [], [false]] ∧ keptCount s = 2 ∧ s.finalised = 1 ∧ s.strong = 0 := by decide
 
+example :   -- re-entrancy three levels deep racing into_inner: four references held by one thread, into_inner waits them all out
+    let s := run (init [[.emitDeep 3], [.intoInner]]) [0, 0, 0, 0, 0, 1, 1, 1, 0, 0, 0, 0, 1]
+    s.threads.map (·.results) = [[.nestedDelivered, .nestedDelivered, .nestedDelivered, .delivered], [.recovered]]
+    ∧ s.recovered = true ∧ s.finalised = 0 ∧ s.unwrapBusy = false ∧ s.threads.map (·.pc) = [.done, .done] := by decide
+
+example :   -- the recorder drops the handle from inside a forwarded call: finalised at the return of the last call, once
+    let s := run (init [[.emitDropInside], [.emit]]) [0, 0, 0, 1, 1, 1, 0]
+    s.threads.map (·.results) = [[.dropped, .delivered], [.delivered]]
+    ∧ s.finalised = 1 ∧ s.enteredAfterEnd = false ∧ (s.finalised, s.recovered) = completeOutcome [[.emitDropInside], [.emit]] := by decide
+
+example :   -- into_inner from inside a forwarded call: stuck at the retry loop, nothing recovered, nothing finalised
+    let s := run (init [[.emitIntoInside, .emit], [.emit]]) [0, 0, 0, 0, 0, 1, 1, 1, 0, 0]
+    s.threads.map (·.results) = [[], [.delivered]] ∧ s.threads.map (·.pc) = [.iTry, .done]
+    ∧ s.recovered = false ∧ s.finalised = 0 ∧ s.strong = 2 := by decide
+
+example : completeOutcome [[.emit], [.dropHandle], [.emit]] = (1, false)
+    ∧ completeOutcome [[.emit, .intoInner], [.dropHandle]] = (0, true) ∧ completeOutcome [[.emit], [.emitKeep]] = (0, false) := by decide
+
 example : install none 7 = (some 7, .installed) ∧ install (some 7) 9 = (some 7, .handedBack 9 0 true) := by decide
 
 
@@ -469,5 +796,21 @@ theorem src_recoverable_bodies :
        ("register_gauge", "{ if let Some(recorder) = self.recorder.upgrade() { recorder.register_gauge(key, metadata) } else { Gauge::noop() } }"),
        ("register_histogram", "{ if let Some(recorder) = self.recorder.upgrade() { recorder.register_histogram(key, metadata) } else { Histogram::noop() } }")]
     ∧ Generated.recover_file_flagged_tokens = ["Arc::new"] := ⟨rfl, rfl, rfl, rfl, rfl, rfl⟩
+
+/-- round 6 — what the bodies above do not pin: the constructor (`new` wraps the recorder in ONE `Arc` and does nothing
+    else — no size-, type- or otherwise keyed branch), the three type definitions (the handle and the builder own an
+    `Arc<R>`, the wrapper a `Weak<R>`; no further field), that `Arc` / `Weak` are `std::sync`'s, and that the non-test
+    part of the file has no other way for a strong reference to escape the count protocol (`Box::leak`, raw pointers,
+    `size_of`, `strong_count`, an `upgrade` outside the six per-call ones, …) -/
+theorem src_recoverable_new_and_types :
+    Generated.recover_new_body = "{ Self { handle: Arc::new(recorder) } }"
+    ∧ Generated.recover_structs =
+      ["#[derive(Debug)] pub struct RecoveryHandle<R> { handle: Arc<R>, }",
+       "#[derive(Debug)] pub struct RecoverableRecorder<R> { handle: Arc<R>, }",
+       "#[derive(Debug)] struct WeakRecorder<R> { recorder: Weak<R>, }"]
+    ∧ Generated.recover_std_uses = ["use std::sync::{Arc, Weak};"]
+    ∧ Generated.recover_count_escape_tokens
+      = ["downgrade", ".upgrade()", ".upgrade()", ".upgrade()", ".upgrade()", ".upgrade()", ".upgrade()"] :=
+  ⟨rfl, rfl, rfl, rfl⟩
 
 end MetricsVerif.C20
